@@ -2,7 +2,7 @@
    `ir` op histories) together with the hierarchical-reference kernels, into one module.
    ExtrOcamlBasic only; nat, N, Z, positive stay extracted inductives. No Extract Constant. *)
 From Coq Require Extraction ExtrOcamlBasic.
-From SV Require Import Base.Base IR.State IR.NS IR.Ops Hier.Paths Hier.Enum Hier.Trace Hier.Conn Extract.DigestHier.
+From SV Require Import Base.Base IR.State IR.NS IR.Ops Hier.Paths Hier.Enum Hier.Trace Hier.Conn Hier.TraceRoots Query.Patterns Extract.DigestHier.
 Extraction Language OCaml.
 Extraction "hier_model.ml" init step
   inv1a_b inv2a_b wfk_b acyclic_b wfc_b top_standalone_b
@@ -12,5 +12,7 @@ Extraction "hier_model.ml" init step
   hrefs_of_instances hrefs_of_instances_in hrefs_of_item all_ipaths all_hwires
   pin_weight get_hwires get_hcables get_hpins get_hwires_ALL
   inner_hwire outer_hwire hpins_of_hwire
+  (* collections of roots, patterns (Hier/TraceRoots.v; matcher of Query/Patterns.v): *)
+  get_hwires_roots get_hcables_roots get_hpins_roots get_hports_roots pat_sel matches_b absolute_b get_ordered
   (* cross-check of extraction + driver glue against vm_compute (harness/coq_eval.py): *)
   hanswer.
